@@ -64,42 +64,65 @@ theorem next_recvStep (B self : Nat) (reach : Bool) (d : Node) (m : Msg) : NExt 
   · exact NExt.refl d
   · exact next_aggregate _ _ _ _ _
 
-/-- state level: size, links, and `NExt` at every node -/
+/-- state level: size, links, `NExt` at every node, and a node that does not run keeps its head -/
 structure Ext (s s' : State) : Prop where
   n : s'.n = s.n
   nIdx : s'.nIdx = s.nIdx
   conn : s'.conn = s.conn
   node : ∀ k, NExt (s.node k) (s'.node k)
+  down : ∀ k, (s.node k).up = false → (s'.node k).head = (s.node k).head
 
-theorem Ext.refl (s : State) : Ext s s := ⟨rfl, rfl, rfl, fun _ => NExt.refl _⟩
+theorem Ext.refl (s : State) : Ext s s := ⟨rfl, rfl, rfl, fun _ => NExt.refl _, fun _ _ => rfl⟩
 
 theorem Ext.trans {a b c : State} (h1 : Ext a b) (h2 : Ext b c) : Ext a c :=
-  ⟨h2.n.trans h1.n, h2.nIdx.trans h1.nIdx, h2.conn.trans h1.conn, fun k => (h1.node k).trans (h2.node k)⟩
+  ⟨h2.n.trans h1.n, h2.nIdx.trans h1.nIdx, h2.conn.trans h1.conn, fun k => (h1.node k).trans (h2.node k),
+   fun k hk => (h2.down k ((h1.node k).1.trans hk)).trans (h1.down k hk)⟩
 
-theorem ext_act (s : State) (i : Nat) (F : Node → Node × List Msg) (h : NExt (s.node i) (F (s.node i)).1) : Ext s (s.act i F) := by
-  refine ⟨rfl, rfl, rfl, fun k => ?_⟩
-  rw [act_node]
-  by_cases hk : k = i
-  · rw [hk]; simp only [if_true]; exact h
-  · simp only [hk, if_false]; exact NExt.refl _
+theorem ext_act (s : State) (i : Nat) (F : Node → Node × List Msg) (h : NExt (s.node i) (F (s.node i)).1)
+    (hdn : (s.node i).up = false → (F (s.node i)).1.head = (s.node i).head) : Ext s (s.act i F) := by
+  refine ⟨rfl, rfl, rfl, fun k => ?_, fun k hk => ?_⟩
+  · rw [act_node]
+    by_cases hki : k = i
+    · rw [hki]; simp only [if_true]; exact h
+    · simp only [hki, if_false]; exact NExt.refl _
+  · rw [act_node]
+    by_cases hki : k = i
+    · rw [hki] at hk ⊢; simp only [if_true]; exact hdn hk
+    · simp only [hki, if_false]
 
-theorem ext_setNode (s : State) (i : Nat) (d : Node) (h : NExt (s.node i) d) : Ext s (s.setNode i d) := by
-  refine ⟨rfl, rfl, rfl, fun k => ?_⟩
-  rw [setNode_node]
-  by_cases hk : k = i
-  · rw [hk]; simp only [if_true]; exact h
-  · simp only [hk, if_false]; exact NExt.refl _
+theorem ext_setNode (s : State) (i : Nat) (d : Node) (h : NExt (s.node i) d)
+    (hdn : (s.node i).up = false → d.head = (s.node i).head) : Ext s (s.setNode i d) := by
+  refine ⟨rfl, rfl, rfl, fun k => ?_, fun k hk => ?_⟩
+  · rw [setNode_node]
+    by_cases hki : k = i
+    · rw [hki]; simp only [if_true]; exact h
+    · simp only [hki, if_false]; exact NExt.refl _
+  · rw [setNode_node]
+    by_cases hki : k = i
+    · rw [hki] at hk ⊢; simp only [if_true]; exact hdn hk
+    · simp only [hki, if_false]
 
-theorem ext_tick (s : State) (i : Nat) : Ext s (s.tick i) := ext_act s i _ (next_tickStep _ _ _)
-theorem ext_fire (s : State) (i : Nat) : Ext s (s.fire i) := ext_act s i _ (next_fireStep _ _ _)
-theorem ext_recv (s : State) (m : Msg) : Ext s (s.recv m) := ext_act s m.dst _ (next_recvStep _ _ _ _ _)
+theorem ext_tick (s : State) (i : Nat) : Ext s (s.tick i) :=
+  ext_act s i _ (next_tickStep _ _ _) (fun h => by rw [tickStep_down _ _ _ (by rw [h]; simp)])
+
+theorem ext_fire (s : State) (i : Nat) : Ext s (s.fire i) :=
+  ext_act s i _ (next_fireStep _ _ _) (fun h => by
+    rcases fireStep_cases s.nIdx i (s.node i) with he | ⟨hu, _⟩
+    · rw [he]
+    · rw [h] at hu; cases hu)
+
+theorem ext_recv (s : State) (m : Msg) : Ext s (s.recv m) :=
+  ext_act s m.dst _ (next_recvStep _ _ _ _ _) (fun h => by
+    rcases recvStep_cases s.nIdx m.dst (s.conn m.src m.dst) (s.node m.dst) m with ⟨he, _⟩ | ⟨hu, _⟩
+    · rw [he]
+    · rw [h] at hu; cases hu)
 
 theorem ext_pull (s : State) (i : Nat) : Ext s (s.pull i) := by
-  rcases pull_cases s i with he | he | ⟨_, _, v, he⟩ <;> rw [he]
+  rcases pull_cases s i with he | he | ⟨hu, _, v, he⟩ <;> rw [he]
   · exact Ext.refl s
-  · exact ext_setNode s i _ ⟨rfl, rfl, Nat.le_refl _, fun h => ⟨rfl, h⟩⟩
+  · exact ext_setNode s i _ ⟨rfl, rfl, Nat.le_refl _, fun h => ⟨rfl, h⟩⟩ (fun _ => rfl)
   · have h := next_appendTo (s.node i) (min (s.node i).syncTo (s.maxPeerHead i))
-    exact ext_setNode s i _ ⟨h.1, h.2.1, h.2.2.1, h.2.2.2⟩
+    exact ext_setNode s i _ ⟨h.1, h.2.1, h.2.2.1, h.2.2.2⟩ (fun hd => by rw [hd] at hu; cases hu)
 
 theorem foldl_inv {α : Type} (P : State → Prop) (f : State → α → State) (hf : ∀ s a, P s → P (f s a)) :
     ∀ (l : List α) (s : State), P s → P (l.foldl f s) := by
@@ -112,7 +135,7 @@ theorem ext_foldl {α : Type} (f : State → α → State) (hf : ∀ s a, Ext s 
   foldl_inv (fun x => Ext s x) f (fun x a h => h.trans (hf x a)) l s (Ext.refl s)
 
 theorem ext_deliverAll (s : State) : Ext s s.deliverAll :=
-  (show Ext s { s with msgs := [] } from ⟨rfl, rfl, rfl, fun _ => NExt.refl _⟩).trans (ext_foldl _ ext_recv _ _)
+  (show Ext s { s with msgs := [] } from ⟨rfl, rfl, rfl, fun _ => NExt.refl _, fun _ _ => rfl⟩).trans (ext_foldl _ ext_recv _ _)
 
 theorem ext_forAll (s : State) (f : State → Nat → State) (hf : ∀ s a, Ext s (f s a)) : Ext s (s.forAll f) := ext_foldl f hf _ _
 
@@ -342,5 +365,249 @@ theorem c07_level (s : State) (j m H c : Nat) (hj : j < s.n) (hjm : j ≠ m)
       rw [h2, h1]
       exact ((ext_foldl _ ext_pull _ _).trans (ext_deliverAll _)).trans (ext_forAll _ _ ext_pull)
     exact Nat.le_trans hstep (hrest.node j).2.2.1
+
+/-! ### 3. the chain continues across the transition -/
+
+/-- `c` catch-up sub-rounds -/
+def State.fairCatchN (s : State) : Nat → State
+  | 0 => s
+  | c + 1 => State.fairCatchN s.fairCatch c
+
+/-- a fair round: the tick sub-round, then `extra` catch-up sub-rounds (each one CatchupPeriod long) -/
+def State.fairRound (s : State) (extra : Nat) : State := State.fairCatchN s.fairTick extra
+
+/-- a fair schedule: one fair round per period, `sch` lists the number of catch-up sub-rounds of each -/
+def State.fairRounds (s : State) (sch : List Nat) : State := sch.foldl State.fairRound s
+
+theorem ext_fairCatchN : ∀ (c : Nat) (s : State), Ext s (State.fairCatchN s c) := by
+  intro c
+  induction c with
+  | zero => intro s; exact Ext.refl s
+  | succ c ih => intro s; exact (ext_fairCatch s).trans (ih _)
+
+theorem good_fairCatchN {nxt : Nat → Option Nat} : ∀ (c : Nat) (s : State), Good nxt s → Good nxt (State.fairCatchN s c) := by
+  intro c
+  induction c with
+  | zero => intro s h; exact h
+  | succ c ih => intro s h; exact ih _ (good_fairCatch s h)
+
+/-- the healthy side after the hand-over: the invariant of reachable states (`Sane`), every running node has finished the
+resharing (`Final`); `U` = the running nodes = members of the new group `G` (epoch `e`, node `i` with index `ix i`), at
+least `G.thr` of them, pairwise connected, holding the new vault; no node that does not run is ahead of all of `U` -/
+structure Healthy (nxt : Nat → Option Nat) (s : State) (U : List Nat) (G : Grp) (e : Nat) (ix : Nat → Nat) : Prop where
+  good : Good nxt s
+  frame : Frame U G ix s.nIdx
+  lt : ∀ i ∈ U, i < s.n
+  conn : ∀ i ∈ U, ∀ j ∈ U, s.conn i j = true
+  up : ∀ i ∈ U, (s.node i).up = true
+  only : ∀ k, (s.node k).up = true → k ∈ U
+  vault : ∀ i ∈ U, (s.node i).vault = ⟨G, e, ix i⟩
+  thr : G.thr ≤ U.length
+  top : ∀ k, ∃ m ∈ U, (s.node k).head ≤ (s.node m).head
+
+theorem healthy_advance {nxt : Nat → Option Nat} {s : State} {U : List Nat} {G : Grp} {e : Nat} {ix : Nat → Nat}
+    (h : Healthy nxt s U G e ix) : Healthy nxt s.advance U G e ix :=
+  ⟨good_advance s h.good, h.frame, h.lt, h.conn, h.up, h.only, h.vault, h.thr, h.top⟩
+
+theorem healthy_ext {nxt : Nat → Option Nat} {s s' : State} {U : List Nat} {G : Grp} {e : Nat} {ix : Nat → Nat}
+    (h : Healthy nxt s U G e ix) (x : Ext s s') (g : Good nxt s') : Healthy nxt s' U G e ix := by
+  refine ⟨g, x.nIdx ▸ h.frame, fun i hi => x.n ▸ h.lt i hi, fun i hi j hj => by rw [x.conn]; exact h.conn i hi j hj,
+    fun i hi => (x.node i).1.trans (h.up i hi), fun k hk => h.only k ((x.node k).1 ▸ hk), fun i hi => ?_, h.thr, fun k => ?_⟩
+  · exact ((x.node i).2.2.2 (h.good.fin i (h.up i hi)).1).1.trans (h.vault i hi)
+  · cases hu : (s.node k).up with
+    | true => exact ⟨k, h.only k hu, Nat.le_refl _⟩
+    | false =>
+      obtain ⟨m, hm, hle⟩ := h.top k
+      exact ⟨m, hm, by rw [x.down k hu]; exact Nat.le_trans hle (x.node m).2.2.1⟩
+
+theorem mem_recipients {d : Node} {G : Grp} {e : Nat} {a j m b : Nat} (hv : d.vault = ⟨G, e, a⟩) (hm : (⟨m, b⟩ : Member) ∈ G.members)
+    (hne : m ≠ j) : m ∈ d.recipients j := by
+  unfold Node.recipients
+  rw [hv]
+  apply List.mem_map.mpr
+  refine ⟨⟨m, b⟩, ?_, rfl⟩
+  apply List.mem_filter.mpr
+  exact ⟨hm, by simpa using hne⟩
+
+theorem clk_of_ext {s s' : State} (x : Ext s s') : clk s' = clk s := (x.node 0).2.1
+
+/-- **One tick sub-round of the healthy side.** The clocks show `c`, every member of `U` stores `c − 1` or `c` (at most one
+round behind: joiners started the way core starts them, `Catchup`, receive beacons only through sync until the
+transition and are one round behind at every other tick). After the tick sub-round of the next period (clocks `c + 1`):
+the side is healthy again, every member stores at least `c` — AT MOST ONE ROUND BEHIND again, never two — and if all were
+level at `c` they are level at `c + 1`: the round of that period is produced in its tick sub-round. -/
+theorem c07_fair_tick {nxt : Nat → Option Nat} {s : State} {U : List Nat} {G : Grp} {e : Nat} {ix : Nat → Nat}
+    (h : Healthy nxt s U G e ix) (c : Nat) (hc : clk s = c) (hlag : ∀ i ∈ U, c ≤ (s.node i).head + 1) :
+    Healthy nxt s.fairTick U G e ix ∧ clk s.fairTick = c + 1 ∧
+    (∀ i ∈ U, c ≤ (s.fairTick.node i).head) ∧
+    ((∀ i ∈ U, (s.node i).head = c) → ∀ i ∈ U, (s.fairTick.node i).head = c + 1) := by
+  have hG := good_fairTick s h.good
+  have hE : Ext s.advance s.fairTick := ext_advance_fairTick s
+  have hH := healthy_ext (healthy_advance h) hE hG
+  have hclk : clk s.fairTick = c + 1 := by rw [clk_of_ext hE]; show (s.node 0).clock + 1 = c + 1; rw [← hc]; rfl
+  have hmono : ∀ k, (s.node k).head ≤ (s.fairTick.node k).head := fun k => (hE.node k).2.2.1
+  have hck : ∀ i, (s.node i).clock = c := fun i => (h.good.sane.node i).clk.trans hc
+  have hle : ∀ i, (s.node i).head ≤ c := fun i => hc ▸ (h.good.sane.node i).headC
+  -- a uniform side makes a step
+  have step : ∀ x, x < c + 1 → (∀ i ∈ U, (s.node i).head = x) → ∀ j ∈ U, x + 1 ≤ (s.fairTick.node j).head := by
+    intro x hx hh
+    have side : Side s U G e ix x :=
+      ⟨h.frame.nodup, h.lt, h.up, h.conn, h.vault, h.frame.member, h.frame.idxLt, h.frame.idxNodup,
+       fun k _ hu _ => Nat.le_of_eq (hh k (h.only k hu))⟩
+    have hq : Quiet s U x e := quiet_of_sane h.good.sane U x e
+      (fun k => by obtain ⟨m, hm, hkm⟩ := h.top k; rw [hh m hm] at hkm; exact hkm)
+      (fun j hj => by rw [h.vault j hj])
+    exact c07_reshare_step_progress s U G e ix x (c + 1) side h.thr hh (fun i _ => by rw [hck i]) hx hq
+  refine ⟨hH, hclk, ?_, ?_⟩
+  · intro j hj
+    by_cases hex : ∃ m ∈ U, (s.node m).head = c
+    · obtain ⟨m, hm, hmc⟩ := hex
+      by_cases hjc : c ≤ (s.node j).head
+      · exact Nat.le_trans hjc (hmono j)
+      · have hjm : j ≠ m := fun hjm => hjc (by rw [hjm, hmc]; exact Nat.le_refl _)
+        exact c07_level s j m c (c + 1) (h.lt j hj) hjm (h.up j hj) (h.up m hm) (h.conn j hj m hm) (h.conn m hm j hj)
+          (h.good.fin j (h.up j hj)).1 (mem_recipients (h.vault j hj) (h.frame.member m hm) (fun hmj => hjm hmj.symm))
+          (by rw [hck j]) hmc (Nat.lt_succ_self c)
+    · have hall : ∀ i ∈ U, (s.node i).head + 1 = c := by
+        intro i hi
+        have h1 := hlag i hi
+        have h2 := hle i
+        have h3 : (s.node i).head ≠ c := fun h3 => hex ⟨i, hi, h3⟩
+        omega
+      have := step (s.node j).head (by have := hall j hj; omega)
+        (fun i hi => by have h1 := hall i hi; have h2 := hall j hj; omega) j hj
+      have h2 := hall j hj
+      omega
+  · intro hh i hi
+    have h1 := step c (Nat.lt_succ_self c) hh i hi
+    have h2 : (s.fairTick.node i).head ≤ c + 1 := hclk ▸ (hG.sane.node i).headC
+    omega
+
+/-- **One fair round of the healthy side**: the tick sub-round of `c07_fair_tick` followed by any number of catch-up
+sub-rounds. Round `c` is stored by every member when the tick sub-round of period `c + 1` ends; at the end of the round the
+side is healthy, at most one round behind the clock, and level with it if it was level before. -/
+theorem c07_fair_round {nxt : Nat → Option Nat} {s : State} {U : List Nat} {G : Grp} {e : Nat} {ix : Nat → Nat}
+    (h : Healthy nxt s U G e ix) (c : Nat) (hc : clk s = c) (hlag : ∀ i ∈ U, c ≤ (s.node i).head + 1) (extra : Nat) :
+    Healthy nxt (s.fairRound extra) U G e ix ∧ clk (s.fairRound extra) = c + 1 ∧
+    (∀ i ∈ U, c ≤ (s.fairTick.node i).head) ∧
+    (∀ i ∈ U, c + 1 ≤ ((s.fairRound extra).node i).head + 1) ∧
+    ((∀ i ∈ U, (s.node i).head = c) → ∀ i ∈ U, ((s.fairRound extra).node i).head = c + 1) := by
+  obtain ⟨t1, t2, t3, t4⟩ := c07_fair_tick h c hc hlag
+  have hE : Ext s.fairTick (s.fairRound extra) := ext_fairCatchN extra s.fairTick
+  have hG : Good nxt (s.fairRound extra) := good_fairCatchN extra s.fairTick t1.good
+  have hclk : clk (s.fairRound extra) = c + 1 := (clk_of_ext hE).trans t2
+  refine ⟨healthy_ext t1 hE hG, hclk, t3, fun i hi => ?_, fun hh i hi => ?_⟩
+  · have := Nat.le_trans (t3 i hi) (hE.node i).2.2.1
+    omega
+  · have h1 := Nat.le_trans (Nat.le_of_eq (t4 hh i hi).symm) (hE.node i).2.2.1
+    have h2 : ((s.fairRound extra).node i).head ≤ c + 1 := hclk ▸ (hG.sane.node i).headC
+    omega
+
+/-- **The chain continues across the transition.** Start: a reachable (`Sane`) state in the period before the transition
+(`c = transition − 1` in the use below; the statement holds for any `c`) in which the resharing is over for every running
+node; `U`, at least `G.thr` members of the NEW group, run, are pairwise connected and hold the new vault (told at any time
+before: `Told.settled`); each stores `c − 1` or `c`. Then for EVERY fair schedule `sch` (any number of catch-up sub-rounds
+in each period): after `k = sch.length` periods the clocks show `c + k`, the side is healthy, and every member of `U` stores
+at least `c + k − 1` and at most `c + k`: every round from the transition round on is produced, AT MOST ONE PERIOD LATE
+(round `r` is stored by all of `U` when the tick sub-round of period `r + 1` ends); if `U` was level at `c`, every round is
+produced in the tick sub-round of its own period. Heads move by `Put`s of `head + 1` only (`c07_no_skip`: no gap); what the
+store accepts at `head + 1` is C02 (`c05_no_skip_store`: linked to the previous beacon; one beacon per round, no fork). -/
+theorem c07_chain_continues {nxt : Nat → Option Nat} {U : List Nat} {G : Grp} {e : Nat} {ix : Nat → Nat} :
+    ∀ (sch : List Nat) (s : State) (c : Nat), Healthy nxt s U G e ix → clk s = c → (∀ i ∈ U, c ≤ (s.node i).head + 1) →
+    Healthy nxt (s.fairRounds sch) U G e ix ∧ clk (s.fairRounds sch) = c + sch.length ∧
+    (∀ i ∈ U, c + sch.length ≤ ((s.fairRounds sch).node i).head + 1 ∧ ((s.fairRounds sch).node i).head ≤ c + sch.length) ∧
+    ((∀ i ∈ U, (s.node i).head = c) → ∀ i ∈ U, ((s.fairRounds sch).node i).head = c + sch.length) := by
+  intro sch
+  induction sch with
+  | nil =>
+    intro s c h hc hlag
+    simp only [State.fairRounds, List.foldl_nil, List.length_nil, Nat.add_zero]
+    exact ⟨h, hc, fun i hi => ⟨hlag i hi, hc ▸ (h.good.sane.node i).headC⟩, fun hh i hi => hh i hi⟩
+  | cons x rest ih =>
+    intro s c h hc hlag
+    obtain ⟨r1, r2, _, r4, r5⟩ := c07_fair_round h c hc hlag x
+    obtain ⟨i1, i2, i3, i4⟩ := ih (s.fairRound x) (c + 1) r1 r2 r4
+    have hlen : c + (x :: rest).length = c + 1 + rest.length := by simp only [List.length_cons]; omega
+    rw [hlen]
+    exact ⟨i1, i2, i3, fun hh => i4 (r5 hh)⟩
+
+/-- told + running + `transition − 1` stored: the node holds the new vault and no switch is pending (the form in which
+`Healthy.vault` and `Final` are discharged for remainers, whenever they were told) -/
+theorem Told.settled {v : Vault} {t : Nat} {d : Node} (h : Told v t d) (hu : d.up = true) (hh : t - 1 ≤ d.head) :
+    d.vault = v ∧ d.pend = none := by
+  rcases h.2 hu with h1 | h1
+  · exact h1
+  · have := h1.2; simp only [Gen.transitionTarget] at this; omega
+
+/-- **Round by round.** With `c = t − 1` (`t` the transition round, `t ≥ 1`): every round `r ≥ t` is stored by every member
+of `U` after `r − t + 2` fair rounds (when the clocks show `r + 1`), and after `r − t + 1` (when they show `r`) if `U` was
+level at `t − 1`. -/
+theorem c07_round_produced {nxt : Nat → Option Nat} {U : List Nat} {G : Grp} {e : Nat} {ix : Nat → Nat} (s : State) (t : Nat)
+    (ht : 1 ≤ t) (h : Healthy nxt s U G e ix) (hc : clk s = t - 1) (hlag : ∀ i ∈ U, t - 1 ≤ (s.node i).head + 1)
+    (r : Nat) (hr : t ≤ r) (sch : List Nat) :
+    (sch.length = r + 2 - t → ∀ i ∈ U, r ≤ ((s.fairRounds sch).node i).head) ∧
+    (sch.length = r + 1 - t → (∀ i ∈ U, (s.node i).head = t - 1) → ∀ i ∈ U, ((s.fairRounds sch).node i).head = r) := by
+  obtain ⟨_, _, h3, h4⟩ := c07_chain_continues sch s (t - 1) h hc hlag
+  refine ⟨fun hl i hi => ?_, fun hl hh i hi => ?_⟩
+  · have := (h3 i hi).1; omega
+  · have := h4 hh i hi; omega
+
+/-! ### no gap -/
+
+theorem aggregate_head_step (B : Nat) (d : Node) (idx ep r : Nat) :
+    (d.aggregate B idx ep r).head = d.head ∨ ((d.aggregate B idx ep r).head = d.head + 1 ∧ r = d.head + 1) := by
+  rcases aggregate_cases B d idx ep r with ⟨_, he⟩ | ⟨_, _, he⟩ | ⟨_, _, _, v, he⟩ | ⟨_, _, hr, P, he⟩ <;> rw [he]
+  · exact Or.inl rfl
+  · exact Or.inl rfl
+  · exact Or.inl rfl
+  · right
+    refine ⟨?_, hr⟩
+    show ((d.setHeld _).put r).head = d.head + 1
+    rw [put_next _ r (by simp [hr]), hr]
+
+/-- Every append is `head + 1` in the resharing model as well: `Put` stores `r` only when `r = head + 1` (the transition
+callback never touches the head); the aggregator moves the head by at most one, to the round of the partial; a sync is a
+run of `Put`s over consecutive rounds. Across the switch of vault nothing else writes the chain. -/
+theorem c07_no_skip :
+    (∀ (d : Node) (r : Nat), (d.put r).head = d.head ∨ ((d.put r).head = d.head + 1 ∧ r = d.head + 1)) ∧
+    (∀ (B : Nat) (d : Node) (idx ep r : Nat),
+      (d.aggregate B idx ep r).head = d.head ∨ ((d.aggregate B idx ep r).head = d.head + 1 ∧ r = d.head + 1)) ∧
+    (∀ (d : Node) (t : Nat), (d.appendTo t).head = d.head + (t - d.head)) :=
+  ⟨fun d r => (put_frame d r).2.2.2.2.2.2.2.2, aggregate_head_step, fun d t => (appendTo_frame d t).1⟩
+
+/-- no event of the model — hand-overs, joins, stops and restarts included — moves a head down -/
+theorem c07_heads_monotone (s : State) (ev : Ev) (k : Nat) : (s.node k).head ≤ ((s.apply ev).node k).head := by
+  cases ev with
+  | advance => exact Nat.le_refl _
+  | tick i => exact ((ext_tick s i).node k).2.2.1
+  | fire i => exact ((ext_fire s i).node k).2.2.1
+  | deliver j =>
+    simp only [State.apply]
+    cases hm : s.msgs[j]? with
+    | none => exact Nat.le_refl _
+    | some m => exact ((ext_recv { s with msgs := s.msgs.eraseIdx j } m).node k).2.2.1
+  | drop j => exact Nat.le_refl _
+  | deliverAll => exact ((ext_deliverAll s).node k).2.2.1
+  | pull i => exact ((ext_pull s i).node k).2.2.1
+  | stop i =>
+    simp only [State.apply, State.stop, setNode_node]
+    by_cases hk : k = i <;> simp [hk]
+  | restart i =>
+    simp only [State.apply, State.restart]
+    split
+    · exact Nat.le_refl _
+    · rw [setNode_node]; by_cases hk : k = i <;> simp [hk]
+  | setConn c => exact Nat.le_refl _
+  | send m => exact Nat.le_refl _
+  | announce i v t =>
+    simp only [State.apply, setNode_node]
+    by_cases hk : k = i
+    · simp only [hk, if_true]; rw [announce_head]; exact Nat.le_refl _
+    · simp [hk]
+  | join i v =>
+    simp only [State.apply, State.join]
+    split
+    · exact Nat.le_refl _
+    · rw [setNode_node]; by_cases hk : k = i <;> simp [hk]
 
 end Drand.Net.Reshare
